@@ -140,6 +140,9 @@ REGRESSIONS = [
     # fixed 251f03c: the annotation of an annotated assignment was dropped when the value needs statements
     ("(setv #^ (v0) a (if (v1a) (do (v1b) (v1c)) (v1d)))", ["v0", "v1a", "v1b", "v1c", "v1d"]),
     ("(defn f [] (setv #^ (v0) a (try (v1) (except [E] (v2)))))", ["v0", "v1", "v2"]),
+    # fixed cfc331c: (setv x (and (if ...) d)) dropped d (renaming shortcut on a larger expression)
+    ("(setv x (and (if (v0) (do (v1) (v2)) (v3)) (v4)))", ["v0", "v1", "v2", "v3", "v4"]),
+    ("(setv x (or (if (v0) (do (v1) (v2)) (v3)) (v4) (v5)))", ["v0", "v1", "v2", "v3", "v4", "v5"]),
 ]
 
 
